@@ -422,6 +422,11 @@ def _sb_call_kwarg(ex, st, args, kwargs):
     yield st, kw[key]
 
 
+def _sb_loops_exhausted(ex, st, args, kwargs):
+    """Every (invariant-cut) loop on this path ended because its iterable was exhausted, not by break."""
+    yield st, all(done for _, done in st.ghost.get("loops", ()))
+
+
 def _sb_py_strip(ex, st, args, kwargs):
     (s,) = args
     for st1, w in ex.narrow(st, s):
@@ -431,7 +436,7 @@ def _sb_py_strip(ex, st, args, kwargs):
             yield st1, bm.model_strip(ex, st1, w)
 
 
-SPEC_BUILTINS = {"call_kwarg": _sb_call_kwarg, "some": _sb_some, "index_at": _sb_index_at, "strip_blank": _sb_strip_blank, "pos_of": _sb_pos_of, "call_arg": _sb_call_arg, "unmodified": _sb_unmodified, "uf": _sb_uf, "called": _sb_called, "py_isalpha": _sb_py_isalpha, "py_isdigit": _sb_py_isdigit, "int_of_signed": _sb_int_of_signed, "strip_padded": _sb_strip_padded, "strip_unique": _sb_strip_unique, "py_strip": _sb_py_strip, "pad": _sb_pad, "matches": _sb_matches, "nat": _sb_nat, "key_at": _sb_key_at, "val_at": _sb_val_at,
+SPEC_BUILTINS = {"loops_exhausted": _sb_loops_exhausted, "call_kwarg": _sb_call_kwarg, "some": _sb_some, "index_at": _sb_index_at, "strip_blank": _sb_strip_blank, "pos_of": _sb_pos_of, "call_arg": _sb_call_arg, "unmodified": _sb_unmodified, "uf": _sb_uf, "called": _sb_called, "py_isalpha": _sb_py_isalpha, "py_isdigit": _sb_py_isdigit, "int_of_signed": _sb_int_of_signed, "strip_padded": _sb_strip_padded, "strip_unique": _sb_strip_unique, "py_strip": _sb_py_strip, "pad": _sb_pad, "matches": _sb_matches, "nat": _sb_nat, "key_at": _sb_key_at, "val_at": _sb_val_at,
                  "same_dict": _sb_same_dict}
 
 
@@ -801,6 +806,9 @@ def _heap_changed(before, st, allowed, havocked_fields=None):
         n = st.heap.get(a)
         if n is None or a in allowed:
             continue
+        if type(n) is not type(o):
+            out.append(a)  # e.g. a concrete dict that became symbolic: it was written to
+            continue
         if isinstance(o, Obj) and a in havocked_fields:
             skip = havocked_fields[a]
             same = list(o.fields) == list(n.fields) and all(_same_val(o.fields[k], n.fields[k]) for k in o.fields if k not in skip)
@@ -1003,6 +1011,8 @@ def _cut_for(ex, node, st, it):
     before = _heap_snapshot(st)
     for st1, more in ex.branch(st, SV("bool", i < n)):
         if not more:
+            st1.ghost = dict(st1.ghost)
+            st1.ghost["loops"] = st1.ghost.get("loops", ()) + ((ordinal, True),)
             if node.orelse:
                 yield from ex.run_block(node.orelse, st1)
             else:
@@ -1017,6 +1027,8 @@ def _cut_for(ex, node, st, it):
                 if out[0] in ("normal", "continue"):
                     _check_invs(ex, st3, spec, "preserve", fname, ordinal, {"_i": SV("int", i + 1)})
                 elif out[0] == "break":
+                    st3.ghost = dict(st3.ghost)
+                    st3.ghost["loops"] = st3.ghost.get("loops", ()) + ((ordinal, False),)
                     yield st3, ("normal", None)
                 else:
                     yield st3, out
